@@ -718,6 +718,54 @@ impl Driver {
                         );
                     }
                 }
+                // block structure (index handles + items with stored seqnos) and table-level
+                // point reads at every (key, seqno) boundary: the extracted block-index model
+                // (Model/BlockIndex.v) is validated and run on it
+                match table.verif_blocks() {
+                    Ok((kind, blocks)) => {
+                        let _ = writeln!(body, "TB {} {} {}", table.id(), kind, blocks.len());
+                        for (end_key, seqno, items) in &blocks {
+                            let _ = writeln!(body, "BH {} {} {}", hex(end_key), seqno, items.len());
+                            for e in items {
+                                let _ = writeln!(
+                                    body,
+                                    "be {} {} {}",
+                                    hex(&e.key.user_key),
+                                    e.key.seqno,
+                                    ty_code(e.key.value_type)
+                                );
+                            }
+                        }
+                        let g = table.global_seqno();
+                        let mut probes: Vec<(Vec<u8>, u64)> = Vec::new();
+                        for (_, _, items) in &blocks {
+                            for e in items {
+                                let s = e.key.seqno.saturating_add(g);
+                                probes.push((e.key.user_key.to_vec(), s));
+                                probes.push((e.key.user_key.to_vec(), s.saturating_add(1)));
+                            }
+                        }
+                        for (end_key, _, _) in blocks.iter().take(64) {
+                            probes.push((end_key.to_vec(), u64::MAX));
+                        }
+                        if probes.len() > 600 {
+                            let step = probes.len() / 600 + 1;
+                            probes = probes.into_iter().step_by(step).collect();
+                        }
+                        for (k, s) in probes {
+                            let h = lsm_tree::table::filter::standard_bloom::Builder::get_hash(&k);
+                            let r = match table.get(&k, s, h) {
+                                Ok(Some(e)) => format!("{}:{}", e.key.seqno, ty_code(e.key.value_type)),
+                                Ok(None) => ".".to_string(),
+                                Err(e) => format!("ERR:{}", format!("{e:?}").replace(' ', "_")),
+                            };
+                            let _ = writeln!(body, "TG {} {} {} {}", table.id(), hex(&k), s, r);
+                        }
+                    }
+                    Err(e) => {
+                        let _ = writeln!(body, "TB {} ERR:{} 0", table.id(), format!("{e:?}").replace(' ', "_"));
+                    }
+                }
             }
         }
         // blob files / gc statistics of every retained version; every pointer of the
